@@ -68,3 +68,43 @@ Definition aexit_generated (x : dctx) : dres :=
   | DFall e => DDone (d_inflight x) e          (* falling off the end returns None: the exception goes on *)
   | other => other
   end.
+
+(* ---------- _set_task_deadline / _unset_task_deadline, regenerated (gen/Gen_curio.v) ---------- *)
+Record tctx := { t_ds : list Z; t_tod : option Z; t_armed : option Z; t_read : option Z; t_unc : bool }.
+Definition ttest (d : Z) (x : tctx) (c : tcond) : option bool :=
+  match c with
+  | TNonEmpty => Some (match t_ds x with [] => false | _ => true end)
+  | TDeadlineLtMin => match minl (t_ds x) with Some m => Some (d <? m) | None => None end
+  | TCUnknown => None
+  end.
+Fixpoint trun (fuel : nat) (d : Z) (x : tctx) (ss : list tstmt) : option tctx :=
+  match fuel with
+  | O => None
+  | S f =>
+      match ss with
+      | [] => Some x
+      | s :: rest =>
+          match s with
+          | TGetDeadlines | TStore => trun f d x rest
+          | TIf c a b =>
+              match ttest d x c with
+              | Some true => trun f d x (a ++ rest)
+              | Some false => trun f d x (b ++ rest)
+              | None => None
+              end
+          | TCancelHandle => trun f d {| t_ds := t_ds x; t_tod := t_tod x; t_armed := None; t_read := t_read x; t_unc := t_unc x |} rest
+          | TArm TArgDeadline => trun f d {| t_ds := t_ds x; t_tod := t_tod x; t_armed := Some d; t_read := t_read x; t_unc := t_unc x |} rest
+          | TArm TMinDeadlines => trun f d {| t_ds := t_ds x; t_tod := t_tod x; t_armed := minl (t_ds x); t_read := t_read x; t_unc := t_unc x |} rest
+          | TAppend => trun f d {| t_ds := t_ds x ++ [d]; t_tod := t_tod x; t_armed := t_armed x; t_read := t_read x; t_unc := t_unc x |} rest
+          | TClearTimedOut => trun f d {| t_ds := t_ds x; t_tod := None; t_armed := t_armed x; t_read := t_read x; t_unc := t_unc x |} rest
+          | TReadTimedOut => trun f d {| t_ds := t_ds x; t_tod := t_tod x; t_armed := t_armed x; t_read := t_tod x; t_unc := t_unc x |} rest
+          | TUncaughtNotIn => trun f d {| t_ds := t_ds x; t_tod := t_tod x; t_armed := t_armed x; t_read := t_read x;
+                                         t_unc := negb (opt_in (t_read x) (t_ds x)) |} rest
+          | TPop => trun f d {| t_ds := removelast (t_ds x); t_tod := t_tod x; t_armed := t_armed x; t_read := t_read x; t_unc := t_unc x |} rest
+          | TReturnPair => Some x
+          | TSUnknown => None
+          end
+      end
+  end.
+Definition tctx_of (s : st) : tctx :=
+  {| t_ds := deadlines s; t_tod := timed_out s; t_armed := armed s; t_read := None; t_unc := false |}.
